@@ -1133,6 +1133,10 @@ impl<T: Read + Seek> Read for BlocksToFileReader<'_, T> {
                                 self.move_to_next_block()?;
                                 continue;
                             }
+                            if length == 0 {
+                                // An empty block is not the end of the file: `Ok(0)` would be taken for EOF
+                                continue;
+                            }
                             let count = self.src.by_ref().take(length).read(into)?;
                             let length_usize = usize::try_from(length).map_err(|_| {
                                 std::io::Error::new(
